@@ -1,26 +1,31 @@
 #!/bin/bash
 # Confirm a seeded change independently: (1) with the patch the existing starlark lib tests pass
 # and the demonstration fails; (2) without the patch the demonstration passes.
-# usage: confirm_seed.sh <worktree> <seed-dir> <modname>    (demo.rs is a unit-test module for starlark/src/tests)
+# usage: confirm_seed.sh <worktree> <seed-dir> <modname> [unit|integ]
+#   unit : demo.rs is a unit-test module for starlark/src/tests (default)
+#   integ: demo.rs is an integration test for starlark/tests/<modname>.rs
 set -u
-WT="$1"; SD="$2"; MOD="$3"
+WT="$1"; SD="$2"; MOD="$3"; MODE="${4:-unit}"
 cd "$WT" || exit 2
+place_demo() {
+  if [ "$MODE" = "integ" ]; then cp "$SD/demo.rs" starlark/tests/$MOD.rs; else cp "$SD/demo.rs" starlark/src/tests/$MOD.rs; echo "mod $MOD;" >> starlark/src/tests.rs; fi
+}
+run_demo() {
+  if [ "$MODE" = "integ" ]; then cargo test -p starlark --test $MOD --offline -j 8; else cargo test -p starlark --lib --offline -j 8 $MOD; fi
+}
 git checkout -q -- . ; git clean -fdq -e target
 git apply "$SD/patch.diff" || { echo "CONFIRM patch does not apply"; exit 2; }
-cp "$SD/demo.rs" starlark/src/tests/$MOD.rs
-echo "mod $MOD;" >> starlark/src/tests.rs
-cargo test -p starlark --lib --offline -j 8 > "$SD/confirm_patched.log" 2>&1
-PATCHED_SUMMARY=$(grep -E "^test result" "$SD/confirm_patched.log" | tail -1)
-FAILED=$(grep -E "^test .* FAILED" "$SD/confirm_patched.log" | sed 's/^test //; s/ \.\.\. FAILED//' | tr '\n' ' ')
-NONDEMO_FAILED=$(grep -E "^test .* FAILED" "$SD/confirm_patched.log" | grep -v "$MOD" | wc -l)
-git checkout -q -- . 2>/dev/null
-cp "$SD/demo.rs" starlark/src/tests/$MOD.rs
-echo "mod $MOD;" >> starlark/src/tests.rs
-cargo test -p starlark --lib --offline -j 8 $MOD > "$SD/confirm_clean.log" 2>&1
-CLEAN_SUMMARY=$(grep -E "^test result" "$SD/confirm_clean.log" | tail -1)
+cargo test -p starlark --lib --offline -j 8 > "$SD/confirm_patched_suite.log" 2>&1
+SUITE=$(grep -E "^test result" "$SD/confirm_patched_suite.log" | tail -1)
+place_demo
+run_demo > "$SD/confirm_patched_demo.log" 2>&1
+PDEMO=$(grep -E "^test result" "$SD/confirm_patched_demo.log" | tail -1)
+git checkout -q -- . ; git clean -fdq -e target
+place_demo
+run_demo > "$SD/confirm_clean_demo.log" 2>&1
+CDEMO=$(grep -E "^test result" "$SD/confirm_clean_demo.log" | tail -1)
 git checkout -q -- . ; git clean -fdq -e target
 echo "CONFIRM seed=$SD"
-echo "  patched: $PATCHED_SUMMARY"
-echo "  patched failures: $FAILED"
-echo "  patched non-demo failures: $NONDEMO_FAILED"
-echo "  clean (demo only): $CLEAN_SUMMARY"
+echo "  existing lib tests with patch: $SUITE"
+echo "  demo with patch:    $PDEMO"
+echo "  demo without patch: $CDEMO"
